@@ -98,6 +98,17 @@ func applyStep(st *C08Step, r rs, b *builder) (got rs, pieces []rs, err error) {
 		var sb redact.StringBuilder
 		redact.JoinTo(&sb, delim, []rs{r, other})
 		return sb.RedactableString(), []rs{r, delim, other}, nil
+	case "JoinBytesToSB":
+		// elements that are redactable but not of string kind: byte slices
+		var sb redact.StringBuilder
+		redact.JoinTo(&sb, delim, []redact.RedactableBytes{r.ToBytes(), other.ToBytes(), r.ToBytes()})
+		return sb.RedactableString(), []rs{r, delim, other, delim, r}, nil
+	case "JoinSBsToPrinter":
+		// ... and builders, by value and by pointer
+		var b1, b2 redact.StringBuilder
+		b1.Print(other)
+		b2.Print(r)
+		return redact.Sprintfn(func(w redact.SafePrinter) { redact.JoinTo(w, delim, []interface{}{b1, &b2, r.ToBytes()}) }), []rs{other, delim, r, delim, r}, nil
 	case "JoinToPrinter":
 		return redact.Sprintfn(func(w redact.SafePrinter) { redact.JoinTo(w, delim, []rs{other, r}) }), []rs{other, delim, r}, nil
 	case "SBPrint":
